@@ -134,6 +134,9 @@ func genFacts(repo string, field, scal, root *pkgSrc, out string) {
 	b.WriteString("def globalWrites : List String := [" + quoteAll(writes) + "]\n\n")
 	b.WriteString("/-- places where the address of (part of) a package-level variable is passed: `callee#argIndex` -/\n")
 	b.WriteString("def globalAddrArgs : List String := [" + quoteAll(addr) + "]\n\n")
+	sort.Strings(globalAddrWritten)
+	b.WriteString("/-- those of them where the callee may write through that parameter (may-write analysis of the callee) -/\n")
+	b.WriteString("def globalAddrArgsWritten : List String := [" + quoteAll(uniq(globalAddrWritten)) + "]\n\n")
 	bound, body := bitsLoopFacts(root)
 	b.WriteString("/-- `for i := range N` in `(*Scalar).Bits`: the trip count N and the text of the loop body -/\n")
 	fmt.Fprintf(&b, "def bitsLoopBound : Nat := %d\n", bound)
@@ -153,6 +156,7 @@ func genFacts(repo string, field, scal, root *pkgSrc, out string) {
 }
 
 var sharedImporter *srcImporter
+var globalAddrWritten []string // address of a package variable passed to a parameter the callee may write through
 
 func rootIdent(e ast.Expr) *ast.Ident {
 	for {
@@ -244,6 +248,9 @@ func globalFacts(repo string) (globals, writes, addr []string) {
 									callee = f.Name
 								}
 								addr = append(addr, fmt.Sprintf("%s#%d %s", callee, i, g))
+								if w, why := newPtrAnalysis().writesArg(x, i); w {
+									globalAddrWritten = append(globalAddrWritten, fmt.Sprintf("%s %s#%d %s: %s", pos(x), callee, i, g, why))
+								}
 							}
 						}
 					}
